@@ -85,18 +85,20 @@ type gen struct {
 	vars  []vinfo
 	funcs []fninfo
 
-	lvl      int // 0 = module level
-	loops    int // loop nesting inside the current function / module
-	ctl      int // block nesting inside the current function / module
-	iter     []int
-	iterAny  int
-	ret      typ
-	cur      *fninfo
-	cost     int // accumulated cost of the current function body
-	topCost  int
-	errKind  int
-	errCount int
-	nstmt    int
+	lvl       int  // 0 = module level
+	loops     int  // loop nesting inside the current function / module
+	nest      bool // the next loop is the outer loop of a nestedLoopStmt
+	forceExit bool // the next loop gets a break / continue in its body
+	ctl       int  // block nesting inside the current function / module
+	iter      []int
+	iterAny   int
+	ret       typ
+	cur       *fninfo
+	cost      int // accumulated cost of the current function body
+	topCost   int
+	errKind   int
+	errCount  int
+	nstmt     int
 }
 
 const (
@@ -920,7 +922,10 @@ func (g *gen) valueTypes() []typ {
 func (g *gen) controlOK() bool { return g.lvl > 0 || g.o.Toplevel }
 
 // block generates n statements in a nested block; returns after restoring visibility.
-func (g *gen) block(n int, d int, pre func()) {
+func (g *gen) block(n int, d int, pre func()) { g.blockPP(n, d, pre, nil) }
+
+// blockPP is block with an additional hook run after the block's statements.
+func (g *gen) blockPP(n int, d int, pre func(), post func()) {
 	mark := len(g.vars)
 	g.ind++
 	g.ctl++
@@ -932,6 +937,9 @@ func (g *gen) block(n int, d int, pre func()) {
 		if g.stmt(d) {
 			break
 		}
+	}
+	if post != nil {
+		post()
 	}
 	if g.sb.Len() == start && pre == nil {
 		g.line("pass")
@@ -956,6 +964,10 @@ func (g *gen) stmt(d int) bool {
 	ed := 2
 	if g.chance(30) {
 		ed = 3
+	}
+	if g.controlOK() && d >= 2 && g.loops == 0 && g.chance(9) {
+		g.nestedLoopStmt(d)
+		return false
 	}
 	for try := 0; try < 8; try++ {
 		c := g.r.Intn(100)
@@ -1190,13 +1202,19 @@ func (g *gen) forStmt(d int) {
 			pushed = 1
 		}
 	}
+	nest, force := g.nest, g.forceExit
+	g.nest, g.forceExit = false, false
 	g.loops++
-	g.block(1+g.r.Intn(2), d-1, func() {
+	nb := 1 + g.r.Intn(2)
+	if nest {
+		nb = g.r.Intn(2)
+	}
+	g.blockPP(nb, d-1, func() {
 		g.vars = append(g.vars, vinfo{name: v, t: tInt, lvl: g.lvl})
-		if g.chance(35) {
+		if !nest && (force || g.chance(35)) {
 			g.loopExit(d)
 		}
-	})
+	}, g.nestPost(nest, d))
 	g.loops--
 	switch pushed {
 	case 1:
@@ -1241,6 +1259,8 @@ func (g *gen) whileStmt(d int) {
 		g.tag("nested-loop")
 	}
 	n := 2 + g.r.Intn(3)
+	nest, force := g.nest, g.forceExit
+	g.nest, g.forceExit = false, false
 	if g.lvl == 0 {
 		g.tag("toplevel-control")
 		c := g.freshG()
@@ -1248,12 +1268,16 @@ func (g *gen) whileStmt(d int) {
 		g.tag("augassign-index")
 		g.line("while %s[0] > 0:", c)
 		g.loops++
-		g.block(1+g.r.Intn(2), d-1, func() {
+		nb := 1 + g.r.Intn(2)
+		if nest {
+			nb = g.r.Intn(2)
+		}
+		g.blockPP(nb, d-1, func() {
 			g.line("%s[0] -= 1", c)
-			if g.chance(30) {
+			if !nest && (force || g.chance(30)) {
 				g.loopExit(d)
 			}
-		})
+		}, g.nestPost(nest, d))
 		g.loops--
 		return
 	}
@@ -1267,17 +1291,101 @@ func (g *gen) whileStmt(d int) {
 	}
 	g.line("while %s:", cond)
 	g.loops++
-	g.block(1+g.r.Intn(2), d-1, func() {
+	nb := 1 + g.r.Intn(2)
+	if nest {
+		nb = g.r.Intn(2)
+	}
+	g.blockPP(nb, d-1, func() {
 		if g.chance(60) {
 			g.line("%s -= 1", c)
 		} else {
 			g.line("%s = %s - 1", c, c)
 		}
-		if g.chance(30) {
+		if !nest && (force || g.chance(30)) {
 			g.loopExit(d)
 		}
-	})
+	}, g.nestPost(nest, d))
 	g.loops--
+}
+
+// nestedLoopStmt emits a loop whose body contains an inner loop (all four
+// for/while combinations when the dialect has while) FOLLOWED, in the outer
+// body, by more statements and a break / continue / return under if / else:
+// the exits after the inner loop must refer to the outer loop.
+func (g *gen) nestedLoopStmt(d int) {
+	g.tag("nested-loop")
+	g.tag("exit-after-inner-loop")
+	g.nest = true
+	if g.o.While && g.chance(50) {
+		g.whileStmt(d)
+	} else {
+		g.forStmt(d)
+	}
+}
+
+// nestPost returns the hook that closes the body of an outer loop made by nestedLoopStmt.
+func (g *gen) nestPost(nest bool, d int) func() {
+	if !nest {
+		return nil
+	}
+	return func() {
+		// the inner loop, itself with a break / continue more often than not
+		g.forceExit = g.chance(60)
+		if g.o.While && g.chance(50) {
+			g.whileStmt(d - 1)
+		} else {
+			g.forStmt(d - 1)
+		}
+		g.forceExit = false
+		if g.chance(60) {
+			g.line("trace(%s)", g.anyE(1).s)
+		}
+		g.exitAfter()
+		if g.chance(60) {
+			g.line("trace(%s)", g.anyE(1).s)
+		}
+	}
+}
+
+// exitAfter emits break / continue / return in the branches of an if / else.
+func (g *gen) exitAfter() {
+	exit := func() {
+		c := g.r.Intn(10)
+		switch {
+		case c < 4:
+			g.tag("break")
+			g.line("break")
+		case c < 8 || g.lvl == 0:
+			g.tag("continue")
+			g.line("continue")
+		default:
+			g.returnStmt(2)
+		}
+	}
+	g.line("if %s:", g.cond(2).s)
+	g.ind++
+	if g.chance(40) {
+		g.line("trace(%s)", g.anyE(1).s)
+	}
+	if g.chance(75) {
+		exit()
+	} else {
+		g.line("pass")
+	}
+	g.ind--
+	if g.chance(50) {
+		g.line("else:")
+		g.ind++
+		if g.chance(50) {
+			g.line("trace(%s)", g.anyE(1).s)
+		}
+		if g.chance(60) {
+			exit()
+		} else {
+			g.line("pass")
+		}
+		g.ind--
+	}
 }
 
 // extraStmt: non-fragment statement forms.
@@ -1675,6 +1783,9 @@ func generate(r *hx.Rand, id int, fragPct int) *Out {
 	g := &gen{r: r, feats: map[string]bool{}, taken: map[string]bool{}}
 	bits := r.Intn(16)
 	g.o = Opts{Set: bits&1 != 0, While: bits&2 != 0, Recursion: bits&4 != 0, Toplevel: bits&8 != 0}
+	if !g.o.While && r.Intn(100) < 40 {
+		g.o.While = true // about 70% of the programs may use while; all 16 combinations still occur
+	}
 	g.frag = r.Intn(100) < fragPct
 	claimFragment := g.frag
 
